@@ -216,14 +216,16 @@ def wrapGenPub (S : Sig) (c : Cvc) (priv : Bytes) : E × Cvc :=
     if k.1 ≠ .ok then (k.1, c) else (.ok, { c with pubkey := k.2 })
   else (.ok, c)
 
-/-- btokCVCWrap, sign the encoded body and write SEQ { body, sig } -/
-def wrapSign (S : Sig) (c : Cvc) (body priv : Bytes) : E × Cvc × Bytes :=
-  let s := S.sign body priv
+/-- btokCVCWrap after btokSign returned `s` = (code, sig): write SEQ { body, OCT sig[0 .. n) } -/
+def wrapSignWith (c : Cvc) (body : Bytes) (n : Nat) (s : E × Bytes) : E × Cvc × Bytes :=
   if s.1 ≠ .ok then (s.1, c, []) else
-  let c := { c with sig := s.2.take (sigLenOfPriv priv.length) }
-  match certEnc body c.sig with
-  | .ok cert => (.ok, c, cert)
+  match certEnc body (s.2.take n) with
+  | .ok cert => (.ok, { c with sig := s.2.take n }, cert)
   | _ => (.oob, c, [])          -- ASSERT(t != SIZE_MAX)
+
+/-- btokCVCWrap, sign the encoded body and write the certificate -/
+def wrapSign (S : Sig) (c : Cvc) (body priv : Bytes) : E × Cvc × Bytes :=
+  wrapSignWith c body (sigLenOfPriv priv.length) (S.sign body priv)
 
 /-- btokCVCWrap from "проверить содержимое сертификата" on -/
 def wrapChecked (S : Sig) (c : Cvc) (priv : Bytes) : E × Cvc × Bytes :=
